@@ -39,9 +39,14 @@ def run(ctx):
     if not behs:
         raise vlib.Broken("no behaviours")
     replay_family(ctx, "iface", behs, env=ENV, batch=4000)
+    # with executable mappings REFUSED for the whole process (seccomp): every stub comes from goom's built-in reserve (C20's fallback,
+    # end to end): the one-variable histories again, and the scale histories below
+    small = [b for b in behs if len(b) <= 6][:300 if q else 3000]
+    s0 = replay_family(ctx, "iface", small, env=dict(ENV, VERIF_NOMMAP="1"), batch=20)   # (the reserve holds about 260 stubs and nothing is given back)
     # the same at scale (Scale.tla, instance ScaleI): 12 variables x 12 methods mocked in groups (more than a page of stub space)
     from checks import life
     life.scale(ctx, 16, 400, iface=True)
+    life.scale(ctx, 48, 400, iface=True, env={"VERIF_NOMMAP": "1"})
     ctx.cov["exhaustive"] = True
     ctx.cov["rule"] = ("every history of Mock(apply|stub)/Reset/Drop/GC/Call to the stated depth over 2 variables of a 3-method "
                        "interface (one initially nil, one holding a real implementation; the middle method in itab order unexported) "
